@@ -152,8 +152,7 @@ Fixpoint run_jobs (fuel : nat) (st : sstate) (acc : list sobs) : sstate * list s
 (* the loop runs until idle without a pending wake *)
 Definition settle (s : lstate) : lstate :=
   let s1 := match l_phase s with
-            | PArmed => lstep (lstep s LInit) LSweep
-            | PGap => lstep s LSweep
+            | PArmed => lstep s LPass
             | PIdle => s
             end in
   lpass (lpass (lpass s1)).
